@@ -190,7 +190,8 @@ class ExprMixin:
             return const(t) if t is not None else SCALAR
         if all(a.only_immutable for a in avs):
             return SCALAR
-        return self.fresh(node, ("nd", "scalar"), st=st)
+        # boolean array / boolean scalar: as an index this is always advanced indexing (a copy)
+        return self.fresh(node, ("nd",), st=st)
 
     def ev_IfExp(self, node, st):
         t = self.truth(node.test, st)
@@ -465,6 +466,8 @@ class ExprMixin:
             else:
                 parts.append(join(AV(set(k) | {"scalar"}, base.orig),
                                   self.fresh(node, ("nd",), st=st, tag="i")))
+        if "any" in base.kinds and base.elem is not None and base.elem is not base:
+            parts.append(base.elem)
         if base.kinds & CONTAINER:
             c = None
             if base.items is not None and isinstance(node.slice, ast.Constant) \
